@@ -2,7 +2,7 @@
 
 The script is a list of items:
    bytes            one delivery segment; recv(n) never crosses a segment boundary
-   ("timeout", k)   the next recv raises a timeout; k in 0,1,2 picks the flavour
+   ("timeout", k)   the next recv raises a timeout; k in 0,1,2,3 picks the flavour (3: would-block of a non-blocking socket)
    ("eof",)         recv returns b"" from now on
    ("rst",)         recv raises ConnectionResetError
 When the script is exhausted recv() returns b"" (end of stream) unless
@@ -22,6 +22,8 @@ def timeout_exc(kind):
         return socket.timeout("timed out")
     if kind == 1:
         return TimeoutError(errno.ETIMEDOUT, "Connection timed out")
+    if kind == 3:  # a non-blocking transport (timeout 0) with nothing to deliver yet
+        return BlockingIOError(errno.EAGAIN, "Resource temporarily unavailable")
     return ssl.SSLError("The read operation timed out")
 
 
